@@ -15,7 +15,7 @@ seen = set()
 for pid, s in sorted(PROPS.items()):
     for tier in ("quick", "thorough"):
         for L in s["layers"][tier]:
-            key = (L["variant"], L["crate"], L.get("features"))
+            key = (L["variant"], L["crate"], L.get("features"), L.get("bin"))
             if key in seen:
                 continue
             seen.add(key)
@@ -25,5 +25,5 @@ for pid, s in sorted(PROPS.items()):
                 r = subprocess.run(cmd + ["__warm__"], cwd=check.HARNESS, env=env, stdout=subprocess.PIPE, stderr=subprocess.STDOUT, text=True)
                 print("setup: miri %s rc=%s %.1fs" % (L["crate"], r.returncode, time.time() - t0), flush=True)
             else:
-                check.build(L["variant"], L["crate"], L.get("features"))
+                check.build(L["variant"], L["crate"], L.get("features"), L.get("bin"))
 print("setup: done")
